@@ -17,6 +17,7 @@ CONSTANTS
   MaxBurst = 3
   CanonKinds = TRUE
   PoolAny = TRUE
+  MaxPause = 0
 INVARIANTS NoViolation DoneMsgHasDoneFrags QueuedMsgsInUse LiveFragPeer
 VIEW view
 CHECK_DEADLOCK FALSE
